@@ -1,7 +1,7 @@
 ---- MODULE MC_RulesMut ----
 (* M for C06: the mutation machine.  From a well-formed template, each step applies one enabled     *)
 (* mutation Break_<rule> (first step: every target; later steps: one representative target per      *)
-(* variant); the design-level claims are that templates are well-formed and that        *)
+(* variant of the other rules); the design-level claims are that templates are well-formed and that        *)
 (* breaking rule k makes k a member of Violated (whatever was broken before).                        *)
 EXTENDS RulesMut
 CONSTANTS MaxDepth
@@ -9,7 +9,7 @@ VARIABLES mm, last, depth
 vars == <<mm, last, depth>>
 Init == mm \in Templates /\ last = "" /\ depth = 0
 Break(b) == mm' = Apply(b, mm) /\ last' = b.rule /\ depth' = depth + 1
-Next == depth < MaxDepth /\ \E b \in BreaksAt(depth, mm) : Break(b)
+Next == depth < MaxDepth /\ \E b \in BreaksAfter(last, mm) : Break(b)
 Spec == Init /\ [][Next]_vars
 TemplatesWellFormed == depth = 0 => WellFormed(mm)
 BreakViolatesItsRule == depth > 0 => last \in Violated(mm)
